@@ -130,9 +130,49 @@ class Stream(Engine):
         C = self.C
         return {'tx': C.CTransaction, 'mtx': C.CMutableTransaction, 'header': C.CBlockHeader, 'block': C.CBlock}[kind]
 
+    # ---- items of several megabytes (legal: far below the 32 MiB cap).  The plan carries a recipe only.
+    BIG_ITEMS = [(5000001, 'vin.script'), (5000000, 'wit.item'), (7654321, 'vout.script'), ((1 << 24) + 1, 'wit.item'), (1 << 20, 'vin.script')]
+
+    def systematic(self, prop, tier):
+        plans = []
+        for k, (n, where) in enumerate(self.BIG_ITEMS):
+            tx = {'version': 2, 'vin': [{'hash': '%064x' % (k + 1), 'n': k, 'script': '51', 'seq': 0xfffffffe}, {'hash': '%064x' % (k + 77), 'n': 1, 'script': '', 'seq': 5}],
+                  'vout': [{'value': 5000 + k, 'script': '76a9'}], 'locktime': 101 + k, 'wit': [['aa'], []] if where == 'wit.item' or k % 2 else None,
+                  'big_item': {'where': where, 'len': n, 'byte': 0x41 + k}}
+            kind = ('tx', 'mtx', 'block')[k % 3]
+            spec = tx if kind != 'block' else {'version': 4, 'prev': '11' * 32, 'merkle': '00' * 32, 'time': 1600000000, 'bits': 0x207fffff, 'nonce': k,
+                                               'txs': [dict(tx, big_item=None, vin=[dict(tx['vin'][0], script='5151')]), tx], 'fix_merkle': True}
+            plans.append({'engine': self.name, 'property': [prop], 'config': {'systematic': 'big-item'}, 'steps': [{'t': 0.0, 'prio': 0, 'party': 0, 'op': 'object', 'args': {
+                'kind': kind, 'spec': spec, 'offsets': [(7919 * (j + 1) * (k + 3)) % (1 << 30) for j in range(10)], 'junk': '00ff', 'sizes': [1 << 16, 4096],
+                'bufsize': 8192, 'mid_offsets': [12345, 999983], 'poison': None, 'pre_use': None}}]})
+        return plans
+
+    @staticmethod
+    def _expand(spec):
+        def one(tx):
+            b = tx.get('big_item')
+            if not b:
+                return {k: v for k, v in tx.items() if k != 'big_item'}
+            tx = copy.deepcopy({k: v for k, v in tx.items() if k != 'big_item'})
+            blob = ('%02x' % b['byte']) * b['len']
+            if b['where'] == 'vin.script':
+                tx['vin'][0]['script'] = blob
+            elif b['where'] == 'vout.script':
+                tx['vout'][0]['script'] = blob
+            else:
+                tx['wit'][0] = [blob]
+            return tx
+        if 'txs' in spec:
+            out = {k: v for k, v in spec.items() if k not in ('txs', 'fix_merkle')}
+            out['txs'] = [one(t) for t in spec['txs']]
+            if spec.get('fix_merkle'):
+                out['merkle'] = RW.block_merkle(out).hex()
+            return out
+        return one(spec)
+
     def _object(self, a):
         ctx = self.ctx
-        kind, spec = a['kind'], a['spec']
+        kind, spec = a['kind'], self._expand(a['spec'])
         cls = self._cls(kind)
         fmap = []
         if kind in ('tx', 'mtx'):
